@@ -37,14 +37,22 @@ def add_stage(m, sd):
                 r = P.declare(d, ocp=ocp, stage=st, solver=False, method=mobj)
             else:
                 key = sd.get("tmpl", 0)
+                keep = bool(sd.get("keep_horizon"))
                 if key not in templates:
-                    tm = rockit.Stage(t0=sd["tmpl_d"]["T0"], T=sd["tmpl_d"]["TT"])
+                    if keep:
+                        # the template declares the horizon (FreeTime included); the clone is made without t0= / T=
+                        th0, thT = horizon_args(sd["tmpl_d"])
+                        tm = rockit.Stage(t0=th0, T=thT)
+                    else:
+                        tm = rockit.Stage(t0=sd["tmpl_d"]["T0"], T=sd["tmpl_d"]["TT"])
                     # the template carries the default horizon of its own declaration; clones override t0/T
                     rt = P.declare(sd["tmpl_d"], ocp=ocp, stage=tm, solver=False)
                     templates[key] = rt
                     rt.decl0 = template_state(rt)
                 rt = templates[key]
-                if d["horizon"] == "Tparam":
+                if keep:
+                    st = ocp.stage(rt.st)
+                elif d["horizon"] == "Tparam":
                     st = ocp.stage(rt.st, t0=t0)          # the horizon stays the template's parameter
                 else:
                     st = ocp.stage(rt.st, t0=t0, T=T)
